@@ -205,9 +205,30 @@ Fixpoint go (s : st) (ops : list word) : option (list word) :=
                end
   end.
 
+(* Race mode, cfg [max; 1]: op [8; iterations; queued headers] runs finish() against
+   concurrently running producers/consumers on fresh control buffers in real goroutines
+   (no fake clock) and validates, in the driver, consequences of the theorems that hold
+   for every interleaving of whole methods; the observation is the number of violations
+   [trfChan left non-nil / throttle() blocked after finish returned;
+    an accepted clientHeaders neither orphaned exactly once nor rejected, or list not empty;
+    panics inside controlBuffer methods; goroutines that did not finish within the deadline].
+   The model's answer is that none of them can happen. *)
+Definition race_obs (op : word) : option word :=
+  match op with [8; _; _] => Some [0; 0; 0; 0] | _ => None end.
+
+Fixpoint race_go (ops : list word) : option (list word) :=
+  match ops with
+  | [] => Some []
+  | op :: r => match race_obs op, race_go r with
+               | Some o, Some os => Some (o :: os)
+               | _, _ => None
+               end
+  end.
+
 Definition run (cfg : word) (ops : list word) : option (list word) :=
   match cfg with
   | [m] => go (init m) ops
+  | [_; 1] => race_go ops
   | _ => None
   end.
 
@@ -265,9 +286,28 @@ Fixpoint cl_go (m : Z) (t : trk) (ops obs : list word) : list (Z * Z * bool) :=
   | _, _ => [(0, 0, false)]
   end.
 
+(* clause 6: after finish() returned trfChan is nil and throttle() returns
+   clause 7: a clientHeaders put that raced with finish() was rejected, or accepted and
+             orphaned exactly once; the list is empty after finish()
+   clause 8: no panic inside a controlBuffer method
+   clause 10: every racing goroutine finished within the driver's deadline *)
+Definition race_cl (op obs : word) : list (Z * Z * bool) :=
+  match op, obs with
+  | [8; _; _], [a; b; c; d] => [(6, a, a =? 0); (7, b, b =? 0); (8, c, c =? 0); (10, d, d =? 0)]
+  | _, _ => [(0, 0, false)]
+  end.
+
+Fixpoint race_cl_go (ops obs : list word) : list (Z * Z * bool) :=
+  match ops, obs with
+  | op :: r, o :: r' => race_cl op o ++ race_cl_go r r'
+  | [], [] => []
+  | _, _ => [(0, 0, false)]
+  end.
+
 Definition clauses (cfg : word) (ops obs : list word) : list (Z * Z * bool) :=
   match cfg with
   | [m] => cl_go m (mkt [] false false) ops obs
+  | [_; 1] => race_cl_go ops obs
   | _ => [(0, 0, false)]
   end.
 
